@@ -91,12 +91,16 @@ def _map_labels(
     Returns:
         np.ndarray: Returns a copy of the remapped array
     """
-    k = np.array(list(label_map.keys()), dtype=arr.dtype)
-    v = np.array(list(label_map.values()), dtype=arr.dtype)
+    keys = list(label_map.keys())
+    values = list(label_map.values())
+    max_value = int(max(arr.max(), max(keys), max(values))) + 1
 
-    max_value = max(arr.max(), max(k), max(v)) + 1
+    # the lookup table must hold every label, also new ones beyond the input dtype
+    dtype = np.promote_types(arr.dtype, np.min_scalar_type(max_value - 1))
+    k = np.array(keys, dtype=dtype)
+    v = np.array(values, dtype=dtype)
 
-    mapping_ar = np.arange(max_value, dtype=arr.dtype)
+    mapping_ar = np.arange(max_value, dtype=dtype)
     mapping_ar[k] = v
     return mapping_ar[arr]
 
